@@ -3,7 +3,8 @@ from checks import cyc_common
 
 def check(tier):
     return cyc_common.check("C07", tier, [], "driver call log / latched inputs / published outputs violate the process-image contract",
-                            "observed = driver call log with images, fault flag, three images, all variables after every operation")
+                            "observed = driver call log with images, fault flag, three images, all variables after every operation (for faulting operations the safe-state delivery is left to C08)",
+                            project=cyc_common.project07)
 
 def replay(path):
     return cyc_common.replay("C07", path, [])
